@@ -64,6 +64,7 @@ type c06Render struct {
 	Template string    `json:"template"`
 	Data     string    `json:"data"` // value sexp of the data map; "nil" = Render(w, name, nil)
 	Ij       string    `json:"ij"`   // value sexp of the injected map; "" = none
+	FailAt   int       `json:"fail_at,omitempty"` // k > 0: the writer accepts k-1 Write calls and fails the k-th
 	Tag      string    `json:"tag"`
 }
 
@@ -160,7 +161,7 @@ func c06RenderWorker(args []string) {
 				res = "badcase"
 				break
 			}
-			o, err := render(tofu, c.Template, d, ij)
+			o, err := c06Render1(tofu, c.Template, d, ij, c.FailAt)
 			switch {
 			case err == nil:
 				res = "ok " + hx.H(o)
@@ -175,6 +176,39 @@ func c06RenderWorker(args []string) {
 	}
 	fmt.Fprintln(out, "END")
 	out.Flush()
+}
+
+// a writer that accepts k-1 Write calls and fails the k-th and all later ones
+type c06FailWriter struct {
+	buf   strings.Builder
+	calls int
+	k     int
+}
+
+func (w *c06FailWriter) Write(p []byte) (int, error) {
+	w.calls++
+	if w.k > 0 && w.calls >= w.k {
+		return 0, fmt.Errorf("writer failed at call %d", w.calls)
+	}
+	return w.buf.Write(p)
+}
+
+func c06Render1(tofu *soyhtml.Tofu, name string, d data.Map, ij data.Map, failAt int) (out string, err error) {
+	if failAt <= 0 {
+		return render(tofu, name, d, ij)
+	}
+	w := &c06FailWriter{k: failAt}
+	defer func() {
+		if r := recover(); r != nil {
+			out, err = w.buf.String(), fmt.Errorf("PANIC: %v", r)
+		}
+	}()
+	r := tofu.NewRenderer(name)
+	if ij != nil {
+		r = r.Inject(ij)
+	}
+	err = r.Execute(w, d)
+	return w.buf.String(), err
 }
 
 func firstLine(s string) string {
@@ -535,6 +569,7 @@ type c06RenderRef struct {
 	Template string `json:"t"`
 	Data     string `json:"d"`
 	Ij       string `json:"ij"`
+	FailAt   int    `json:"f"`
 }
 
 func c06MarshalRenders(cases []c06Render) func(idx []int) []byte {
@@ -550,7 +585,7 @@ func c06MarshalRenders(cases []c06Render) func(idx []int) []byte {
 				seen[key] = b
 				in.Bundles = append(in.Bundles, c.Files)
 			}
-			in.Cases = append(in.Cases, c06RenderRef{Bundle: b, Template: c.Template, Data: c.Data, Ij: c.Ij})
+			in.Cases = append(in.Cases, c06RenderRef{Bundle: b, Template: c.Template, Data: c.Data, Ij: c.Ij, FailAt: c.FailAt})
 		}
 		bs, _ := json.Marshal(in)
 		return bs
@@ -951,6 +986,16 @@ func c06Enumerations(e *env) []c06Plan {
 	}
 	plans = append(plans, c06Plan{c: c06Render{Kind: "render", Files: files, Template: "rec.down", Data: valueSexp(data.Map{"n": data.String("x")}, ids), Tag: "recursion"}, nontriv: true})
 	plans = append(plans, c06Plan{c: c06Render{Kind: "render", Files: files, Template: "rec.nosuch", Data: "nil", Tag: "recursion"}, nontriv: true})
+	// a long message as the very last thing of a file (its text and tag parts are the nodes with the
+	// largest positions), with an error raised at every Write call in turn and inside its placeholders
+	msgTail := "{namespace m}\n\n/**\n * @param? u\n * @param? i\n */\n{template .t}\nhead{msg desc=\"d\"}Hello <a href=\"x\">dear {$i}</a>, you have <b>{$i + 1}</b> new <i>items</i> and some trailing text that is rather long {$u}<br/>the end{/msg}{/template}"
+	msgPlural := "{namespace m}\n\n/**\n * @param? u\n * @param? i\n */\n{template .t}\n{msg desc=\"d\"}{plural $u}{case 1}one <b>item</b>{default}{$i} <i>items</i> of many{/plural}{/msg}{/template}"
+	for k := 0; k <= 14; k++ {
+		plans = append(plans, c06Plan{c: c06Render{Kind: "render", Files: []srcFile{{Name: "tail.soy", Text: msgTail}}, Template: "m.t", Data: valueSexp(data.Map{"i": data.Int(3), "u": data.String("x")}, ids), FailAt: k, Tag: "msg-tail"}, nontriv: true})
+		plans = append(plans, c06Plan{c: c06Render{Kind: "render", Files: []srcFile{{Name: "tail.soy", Text: msgTail}}, Template: "m.t", Data: valueSexp(data.Map{"i": data.Int(3)}, ids), FailAt: k, Tag: "msg-tail"}, nontriv: true})
+		plans = append(plans, c06Plan{c: c06Render{Kind: "render", Files: []srcFile{{Name: "tail.soy", Text: msgPlural}}, Template: "m.t", Data: valueSexp(data.Map{"i": data.Int(3), "u": data.Int(int64(k % 3))}, ids), FailAt: k / 3, Tag: "msg-tail"}, nontriv: true})
+	}
+	plans = append(plans, c06Plan{c: c06Render{Kind: "render", Files: []srcFile{{Name: "tail.soy", Text: msgPlural}}, Template: "m.t", Data: valueSexp(data.Map{"i": data.Int(3), "u": data.String("two")}, ids), Tag: "msg-tail"}, nontriv: true})
 	// duplicate template names: the ledger's witness, both file orders, error in the long and in the short file
 	long := "{namespace a}\n" + strings.Repeat("// padding padding padding\n", 10) + "/** */\n{template .t}\n{1 < 'a'}\n{/template}\n"
 	short := "{namespace a}\n/** */\n{template .t}\nx{1 % 0}\n{/template}\n"
@@ -1000,7 +1045,11 @@ func c06Renders(e *env, perCase time.Duration) {
 			if e.rng.Bool() {
 				ij = valueSexp(data.Map{"foo": c06JSON(e.rng, 1), "a": c06JSON(e.rng, 2), "list": data.List{c06JSON(e.rng, 1)}, "n": data.Int(int64(e.rng.Intn(5)))}, ids)
 			}
-			plans = append(plans, c06Plan{c: c06Render{Kind: "render", Files: files, Template: entry, Data: d, Ij: ij, Tag: tag}, risky: risky, nontriv: nontriv, hasJSON: hasJSON})
+			failAt := 0
+			if e.rng.Chance(25) {
+				failAt = 1 + e.rng.Intn(12)
+			}
+			plans = append(plans, c06Plan{c: c06Render{Kind: "render", Files: files, Template: entry, Data: d, Ij: ij, FailAt: failAt, Tag: tag}, risky: risky, nontriv: nontriv, hasJSON: hasJSON})
 		}
 	}
 	c06RunRenderPlans(e, plans, perCase)
@@ -1070,7 +1119,11 @@ func c06RunRenderPlans(e *env, plans []c06Plan, perCase time.Duration) {
 			ij = "none"
 		}
 		reqIx[i] = len(reqs)
-		reqs = append(reqs, strings.Join([]string{"render", "c06", sx(p.c.Template), c06Fuel, "none", "none", "-", ij, ";", d}, " "))
+		cl := "none"
+		if p.c.FailAt > 0 {
+			cl = "#" + strconv.Itoa(p.c.FailAt-1)
+		}
+		reqs = append(reqs, strings.Join([]string{"render", "c06", sx(p.c.Template), c06Fuel, cl, "none", "-", ij, ";", d}, " "))
 	}
 	if d := os.Getenv("C06_DUMP"); d != "" {
 		os.WriteFile(d, []byte(strings.Join(reqs, "\n")+"\n"), 0o644)
@@ -1079,7 +1132,7 @@ func c06RunRenderPlans(e *env, plans []c06Plan, perCase time.Duration) {
 	// ---- compare ----
 	for i, p := range plans {
 		r := res[i]
-		key := fmt.Sprint(p.c.Files) + p.c.Template + p.c.Data + p.c.Ij
+		key := fmt.Sprint(p.c.Files) + p.c.Template + p.c.Data + p.c.Ij + strconv.Itoa(p.c.FailAt)
 		cls, fields := "", []string(nil)
 		if r.Status == "done" {
 			fields = strings.Fields(r.Out)
